@@ -159,7 +159,7 @@ func newStdSvc(v stdVariant) (*stdSvc, error) {
 		cfg.GlobalHosts = append(cfg.GlobalHosts, [2]string{"hop-x.test", ip(99)})
 		cfg.More = []labCfg{{
 			Name:    "svc-b.test",
-			Listens: []labListenCfg{{Addr: ip(4), UDPPort: 5066, TCPPort: 5067, Backends: []string{"udp://" + ip(37) + ":5080"}}},
+			Listens: []labListenCfg{{Addr: ip(4), UDPPort: 5066, TCPPort: 5067, Backends: []string{"udp://" + ip(37) + ":5080", "udp://" + ip(38) + ":5080"}}},
 			Routes:  []labRouteCfg{{Dests: []string{"static-udp.test"}, Protocol: "udp", NextHop: ip(25) + ":5070"}},
 			Hosts:   [][2]string{{"hop-x.test", ip(25)}, {"only-b.test", ip(22)}},
 		}}
